@@ -85,9 +85,14 @@ def format_family(tier, rng):
             s = rng.choice(full)
             out.append((f"format:{name}:{s}", value_script(src, [s])))
     else:
-        for name, src in vals:
-            for s in full:
-                out.append((f"format:{name}:{s}", value_script(src, [s])))
+        # the full grid is |vals| x ~21k specs (2.2M scripts): a seeded 300k sample of it, plus every spec once
+        for k, s in enumerate(full):
+            name, src = vals[(k * 7 + rng.below(len(vals))) % len(vals)]
+            out.append((f"format:{name}:{s}", value_script(src, [s])))
+        for _ in range(300000):
+            name, src = rng.choice(vals)
+            s = rng.choice(full)
+            out.append((f"format:{name}:{s}", value_script(src, [s])))
     # several interpolations in one string, nested strings, format specs next to multi-byte text
     for name, src in vals[::3]:
         lines = src.split("\n")
@@ -254,7 +259,7 @@ FAMILIES = [fam_call_args, fam_locals, fam_params, fam_captures, fam_nested_call
             fam_match, fam_interpolation, fam_nesting]
 
 
-def limit_family(tier):
+def limit_family(tier, rng=None):
     """returns [(origin, src)].  u8 limits: every n in a window that contains each limit minus the few
     registers that frames reserve (base, result, captures, instance); u16 limits: literal / constant
     counts and jump distances (thorough tier, plus a coarse scan in the quick tier)."""
@@ -266,7 +271,10 @@ def limit_family(tier):
     for n in ns:
         for fam in FAMILIES:
             if tier == "quick" and fam in (fam_nesting, fam_nested_calls) and n not in (123, 129, 253, 254, 255, 256, 257):
-                continue            # deep nesting is slow to parse: a few depths here, all in the thorough tier
+                continue            # deep nesting is slow to parse: a few depths here, more in the thorough tier
+            if tier != "quick" and fam in (fam_nesting, fam_nested_calls) and not (
+                    n < 20 or (100 <= n < 140 and n % 3 == 0) or 250 <= n <= 260 or n in (400, 511, 512)):
+                continue
             for name, src in fam(n):
                 out.append((f"limit:{name}:{n}", src))
     # u16: number of elements / constants
@@ -279,16 +287,20 @@ def limit_family(tier):
     # jump distances: bodies whose bytecode size crosses 2^16 (fillers of different sizes move the
     # crossing point byte by byte); a coarse scan in the quick tier, a dense one in the thorough tier
     if tier != "quick":
-        scan = [(f, list(range(4000, 34000, 500))) for f in FILLERS[:3]] + \
-               [(f, list(range(2000, 24000, 1000))) for f in FILLERS[3:]]
-        for filler, counts in scan:
-            for n in counts:
-                for name, src in jump_programs(n, filler):
-                    out.append((f"limit:{name}:{filler}:{n}", src))
+        # bodies of 2000..34000 statements are slow (seconds each): a seeded sample of the
+        # (filler, size, jump kind) grid instead of all ~4800 programs
+        grid = [(f, n) for f in FILLERS[:3] for n in range(4000, 34000, 500)] + \
+               [(f, n) for f in FILLERS[3:] for n in range(2000, 24000, 1000)]
+        kinds = [name for name, _ in jump_programs(1, FILLERS[0])]
+        for _ in range(320):
+            filler, n = rng.choice(grid) if rng else grid[0]
+            kind = rng.choice(kinds) if rng else kinds[0]
+            src = next(s for name, s in jump_programs(n, filler) if name == kind)
+            out.append((f"limit:{kind}:{filler}:{n}", src))
     return out
 
 
-def calibrated_jump_programs(bytes_per_stmt, tier):
+def calibrated_jump_programs(bytes_per_stmt, tier, rng=None):
     """bodies sized so that the jump across them lands within a few statements of 2^8 and 2^16 bytes.
     bytes_per_stmt: {filler: measured bytes} (from compiling two bodies of different size)"""
     out = []
@@ -300,6 +312,8 @@ def calibrated_jump_programs(bytes_per_stmt, tier):
             width = (4 if limit == 256 else 2) if tier == "quick" else 12
             for n in range(max(1, centre - width), centre + width + 1):
                 for name, src in jump_programs(n, filler):
+                    if limit == 65536 and rng is not None and not rng.chance(1, 8):
+                        continue        # 2^16-byte bodies take seconds each: a seeded eighth of them
                     if tier == "quick" and limit == 65536 and name not in ("jump/if", "jump/while", "jump/loop-break", "jump/for",
                                                                            "jump/try-catch", "jump/fn-body"):
                         continue
